@@ -7,6 +7,8 @@ Tie: (a) the tables the real get_*_quadratureDG functions return are compared wi
 (b) the extracted fixed-point model (2^-100) and the real calculate_face_area /
 Grid.compute_face_areas run on the same corners; (c) every property clause is evaluated directly on
 the implementation's output against the exact spherical excess (mpmath, 50 digits).
+The `dim` that Grid.compute_face_areas passes on the Cartesian path is generated from grid.py too
+(c05_dim_cartesian3; `dim = 2 if latlon else 3` since fix 4eed51d9) and selects the model variant.
 The accuracy classes and the convergence are numerical facts (validated here, not proved).
 """
 import json
@@ -847,7 +849,7 @@ def check_tables(ck):
 
 # ---------------------------------------------------------------------------------------------
 
-def run_models(ck, face_jobs, grid_jobs, st, budget_pts):
+def run_models(ck, face_jobs, grid_jobs, st, budget_pts, dim3=True):
     """fixed-point model vs implementation on a sample bounded by the number of quadrature points"""
     rng = ck.rng
     lines, meta = [], []
@@ -870,15 +872,16 @@ def run_models(ck, face_jobs, grid_jobs, st, budget_pts):
         if a_xyz is not None:
             # the code's `dim` choice on the Cartesian path: both model variants are evaluated and the
             # implementation has to agree with ONE of them on every case (recorded in the evidence)
-            # fixdim = 1 is compared numerically; the dim = 2 variant is mathematically 0 (float noise in
-            # the implementation), so it is tied through the dataflow instead: the result must equal
-            # the function-level call on (x, y, 0)  (theorem C05_coords_grid_drops_z)
-            glines.append(model_line_grid(LL, xyz, case["table"], rule[0], rule[1], False, fixdim=1))
-            gmeta.append(("grid-xyz/fixdim=1", case, rule, a_xyz))
-            zd = z_dropped_symptom(xyz, case["table"], a_xyz, rule[0], rule[1])
-            if not zd:
-                zdrop_bad.append({"what": "Cartesian path is neither the dim=3 model nor the z-dropped dataflow",
-                                  "case": case, "rule": rule})
+            # the model variant generated from the source (c05_dim_cartesian3).  dim = 3 is compared
+            # numerically; the dim = 2 variant is mathematically 0 (float noise in the implementation),
+            # so it would be tied through the dataflow instead: result = function-level call on
+            # (x, y, 0)  (theorem C05_coords_grid_dim2_drops_z)
+            if dim3:
+                glines.append(model_line_grid(LL, xyz, case["table"], rule[0], rule[1], False, fixdim=1))
+                gmeta.append(("grid-xyz", case, rule, a_xyz))
+            elif not z_dropped_symptom(xyz, case["table"], a_xyz, rule[0], rule[1]):
+                zdrop_bad.append({"what": "source says dim = 2 on the Cartesian path, but the result is not the "
+                                          "z-dropped dataflow", "case": case, "rule": rule})
     for case, P, LL, areas in face_jobs:
         for rule in [("triangular", 4), rng.choice(RULES)]:
             c = cost(rule, len(P) - 2)
@@ -903,39 +906,23 @@ def run_models(ck, face_jobs, grid_jobs, st, budget_pts):
             ck.corr_failures.append({"what": "model/implementation differ: " + what, "case": case, "rule": rule,
                                      "impl": a, "model": mp.nstr(ma, 20)})
     gres = run_model_par(ck, "c05_grid", glines)
-    variant_bad = {0: [], 1: []}
     for (what, case, rule, arr), r in zip(gmeta, gres):
         n += 1
-        fails = None
         if r is None or (isinstance(r, list) and r and r[0] == "ERR") or len(r) != len(arr):
-            fails = {"what": "model raised / shape", "case": case, "rule": rule, "model": str(r)[:200]}
-        else:
-            for f, (pair, a) in enumerate(zip(r, arr)):
-                ma = mp.mpf(pair[0]) / S
-                tiny = abs(ma) <= 1e-15
-                d = 0.0 if tiny else float(abs(ma - mp.mpf(float(a))) / abs(ma))
-                bad = abs(float(a)) > 1e-12 if tiny else d > MODEL_TOL
-                if not what.startswith("grid-xyz"):
-                    st.dev("model_vs_impl(" + what + ")", d)
-                if bad:
-                    fails = {"what": "model/implementation differ: " + what, "case": case, "rule": rule,
-                             "face": f, "impl": float(a), "model": mp.nstr(ma, 20)}
-                    break
-        if what.startswith("grid-xyz"):
-            if fails:
-                variant_bad[int(what[-1])].append(fails)
-        elif fails:
-            ck.corr_failures.append(fails)
-    if any(w.startswith("grid-xyz") for (w, _, _, _) in gmeta):
-        if not variant_bad[1]:
-            ck.extra["cartesian_path_model_variant"] = "dim = 3 on the Cartesian path (repaired model, fixdim = true)"
-        elif not zdrop_bad:
-            ck.extra["cartesian_path_model_variant"] = ("dim = 2 on the Cartesian path (faithful model, fixdim = false): "
-                                                        "result = function-level call on (x, y, 0) on every case")
-        else:
-            ck.extra["cartesian_path_model_variant"] = "neither"
-            ck.corr_failures.append(zdrop_bad[0])
-            ck.corr_failures.append(variant_bad[1][0])
+            ck.corr_failures.append({"what": "model raised / shape: " + what, "case": case, "rule": rule, "model": str(r)[:200]})
+            continue
+        for f, (pair, a) in enumerate(zip(r, arr)):
+            ma = mp.mpf(pair[0]) / S
+            tiny = abs(ma) <= 1e-15
+            d = 0.0 if tiny else float(abs(ma - mp.mpf(float(a))) / abs(ma))
+            st.dev("model_vs_impl(" + what + ")", d)
+            if (abs(float(a)) > 1e-12) if tiny else (d > MODEL_TOL):
+                ck.corr_failures.append({"what": "model/implementation differ: " + what, "case": case, "rule": rule,
+                                         "face": f, "impl": float(a), "model": mp.nstr(ma, 20)})
+                break
+    ck.corr_failures += zdrop_bad[:1]
+    ck.extra["cartesian_path_model_variant"] = ("dim = 3 on the Cartesian path (generated from grid.py: `dim = 2 if latlon else 3`)"
+                                                if dim3 else "dim = 2 on the Cartesian path (generated from grid.py): z dropped")
     return n, lines
 
 
@@ -978,6 +965,7 @@ def main(ck):
     phase["coq+driver"] = round(time.time() - t0, 1)
     st = Stats()
     default_rule = ("triangular", 4)
+    dim3 = True           # `dim` on the Cartesian path, as generated from grid.py (c05_dim_cartesian3)
     n_tab = 0
     if ok:
         try:
@@ -985,6 +973,7 @@ def main(ck):
             default_rule = ("triangular" if d[0] == 1 else "gaussian", int(d[1]))
             if d[2] != 1:
                 ck.corr_failures.append({"what": "default latlon is not True"})
+            dim3 = bool(d[3])
         except Exception as ex:
             ck.proof["errors"].append("table tie failed: %r" % (ex,))
     t1 = time.time()
@@ -1025,7 +1014,7 @@ def main(ck):
     audit_n = 0
     if ok:
         try:
-            n_model, lines = run_models(ck, face_jobs, grid_jobs, st, 22000 if ck.tier == "quick" else 600000)
+            n_model, lines = run_models(ck, face_jobs, grid_jobs, st, 22000 if ck.tier == "quick" else 600000, dim3)
             # extraction audit: the same model evaluated by the kernel on a few single-triangle cases
             small = [l for l in lines if l.startswith("(1 4 0 () ") and l.count("(") <= 7][:4]
             if small:
